@@ -512,6 +512,17 @@ func (g *gen) busScript(idx int) error {
 	}
 	verifhook.Set(nil)
 
+	if leaks > 0 || !allRet() {
+		g.hard++
+	} else {
+		for _, l := range ls {
+			if !l.closed {
+				g.hard++
+				break
+			}
+		}
+	}
+
 	// ---- emit ----
 	items := make([]string, len(script))
 	js := make([]any, len(script))
